@@ -124,7 +124,54 @@ def audit(repo):
         except Exception as e:      # noqa
             raise sched.SchedError(f'coba writes process-global state {(mod, owner, attr)} that the simulated process layer cannot isolate: {e!r}')
     AUTO_ISOLATED[:] = unknown
+    # mutable containers bound at class or module level (a registry / memo that is only MUTATED, never re-assigned, escapes the scan
+    # above): a spawned child starts from the import-time value, so each fake pid gets its own deep copy of it
+    MUT_CALLS = {'dict', 'list', 'set', 'defaultdict', 'OrderedDict', 'Counter', 'deque'}
+
+    def mutable(v):
+        if isinstance(v, (ast.Dict, ast.List, ast.Set, ast.DictComp, ast.ListComp, ast.SetComp)): return True
+        if isinstance(v, ast.Call):
+            f = v.func
+            n = f.id if isinstance(f, ast.Name) else (f.attr if isinstance(f, ast.Attribute) else None)
+            return n in MUT_CALLS
+        if isinstance(v, ast.BinOp): return mutable(v.left) or mutable(v.right)
+        return False
+
+    containers = []
+
+    def scan(body, mod, owner):
+        for n in body:
+            if isinstance(n, ast.Assign) and mutable(n.value):
+                containers.extend((mod, owner, t.id) for t in n.targets if isinstance(t, ast.Name))
+            elif isinstance(n, ast.AnnAssign) and n.value is not None and mutable(n.value) and isinstance(n.target, ast.Name):
+                containers.append((mod, owner, n.target.id))
+            elif isinstance(n, ast.ClassDef):
+                scan(n.body, mod, (owner + '.' if owner else '') + n.name)
+
+    for dp, dn, fn in os.walk(root):
+        if 'tests' in dp.split(os.sep): continue
+        for f in fn:
+            if not f.endswith('.py'): continue
+            p = os.path.join(dp, f)
+            mod = os.path.relpath(p, repo)[:-3].replace(os.sep, '.')
+            if mod.endswith('.__init__'): mod = mod[:-9]
+            with warnings.catch_warnings():
+                warnings.simplefilter('ignore')
+                scan(ast.parse(open(p, encoding='utf-8').read()).body, mod, None)
+    swapped_names = {(m, a) for m, _, a in SWAPPED} | {(m, a.replace('[...]', '')) for m, _, a in unknown}
+    for mod, owner, name in containers:
+        if (mod, name) in swapped_names or mod == 'coba.context.core': continue
+        try:
+            target = importlib.import_module(mod)
+            for part in (owner.split('.') if owner else []): target = getattr(target, part)
+            if name not in target.__dict__: continue
+            snap = copy.deepcopy(target.__dict__[name])
+            G.add_attr(target, name, lambda snap=snap: copy.deepcopy(snap))
+            CONTAINERS_ISOLATED.append(f"{mod}:{owner + '.' if owner else ''}{name}")
+        except Exception as e:      # noqa
+            raise sched.SchedError(f'coba keeps a mutable container {(mod, owner, name)} at class/module level that the simulated process layer cannot isolate: {e!r}')
     return len(found)
 
 
 AUTO_ISOLATED = []
+CONTAINERS_ISOLATED = []
